@@ -82,8 +82,10 @@ outer:
 			continue
 		}
 		var prevStr string
-		for _, str := range values {
-			if str != prevStr {
+		for j, str := range values {
+			// the first value is always written: an empty-string value must not be
+			// mistaken for the initial prevStr
+			if j == 0 || str != prevStr {
 				d.keyBuilder.WriteString(str)
 				d.keyBuilder.WriteRune('•')
 				fieldCount += 1
